@@ -833,6 +833,11 @@ DIRECTED = [
 ]
 
 
+def dis(ctx, stream, detail, key=None):
+    ctx.count('disagree:' + stream)
+    ctx.disagree(stream, detail, key)
+
+
 def run(ctx):
     ctx.rule = ('(a) transformation histories over a store of live grids: a base grid (Cartesian 1-3 D or polar; regular / separated '
                 'incl. ragged, descending, unsorted / unstructured; stored weights none, scalar or per point; in 40 % of the histories '
@@ -944,10 +949,10 @@ def run(ctx):
                     ctx.count('as-model:' + ('c->p' if st['before'][st['op'][1]]['sys'] == 'c' else 'p->c'))
                     ctx.traces_validated += 1
                     if d is not None:
-                        ctx.disagree('C11 as_ model', {'case': case, 'op': st['op'], 'diff': d, 'model': out[base_i + m['conv']][:300]})
+                        dis(ctx, 'C11 as_ model', {'case': case, 'op': st['op'], 'diff': d, 'model': out[base_i + m['conv']][:300]})
                         break
                 if mstatus != st['status']:
-                    ctx.disagree('C11 op status', {'case': case, 'op': st['op'], 'impl': st['status'], 'model': ans})
+                    dis(ctx, 'C11 op status', {'case': case, 'op': st['op'], 'impl': st['status'], 'model': ans})
                     break
                 stop = False
                 for k in range(m['n']):
@@ -960,7 +965,7 @@ def run(ctx):
                         if not close_arr(mp, real['points']):
                             d = 'points differ'
                     if d is not None:
-                        ctx.disagree('C11 show', {'case': case, 'after': st['op'], 'grid': k, 'diff': d})
+                        dis(ctx, 'C11 show', {'case': case, 'after': st['op'], 'grid': k, 'diff': d})
                         stop = True
                         break
                 if stop:
@@ -974,12 +979,12 @@ def run(ctx):
                     continue
                 if isinstance(g, tuple):
                     if ans.split(' ')[0:2] != g[1].split(' ')[0:2] and not (ans.startswith('ok') and g[1] == 'ok'):
-                        ctx.disagree('C11 ctor status', {'case': case, 'impl': g[1], 'model': ans})
+                        dis(ctx, 'C11 ctor status', {'case': case, 'impl': g[1], 'model': ans})
                     continue
                 ms = G.parse_show(ans)
                 d = G.compare_show(ms, G.snap(g), G.get_weights(g))
                 if d is not None:
-                    ctx.disagree('C11 ctor', {'case': case, 'diff': d, 'model': ans[:300]})
+                    dis(ctx, 'C11 ctor', {'case': case, 'diff': d, 'model': ans[:300]})
 
 
 def G_arg(op):
